@@ -99,4 +99,19 @@ MUTANTS = [
      'edits': [E(Q, """    query = 'SELECT modified FROM lexicons WHERE rowid = ?'
     return connect().execute(query, (rowid,)).fetchone()[0]""", """    query = 'SELECT modified FROM lexicons WHERE rowid = :rowid'
     return connect().execute(query, {'rowid': rowid}).fetchone()[0]""")]},
+    {'name': 'forms-accumulator-outside-batch-loop', 'expect': 'C01-R10',
+     'edits': [E(A, """    for batch in _batch(entries):
+        forms: list[tuple[Optional[str], int, str, int,
+                          str, Optional[str], Optional[str], int]] = []
+""", """    forms: list[tuple[Optional[str], int, str, int,
+                      str, Optional[str], Optional[str], int]] = []
+    for batch in _batch(entries):
+""")]},
+    {'name': 'benign-tags-accumulator-cleared', 'expect': 'silent', 'property': 'C01',
+     'edits': [E(A, """    for batch in _batch(entries):
+        tags: list[tuple[str, int, Optional[str], int, str, str]] = []
+""", """    tags: list[tuple[str, int, Optional[str], int, str, str]] = []
+    for batch in _batch(entries):
+        tags.clear()
+""")]},
 ]
